@@ -21,7 +21,10 @@ FUNCTIONS = {
     'C07': [('runner_spawn', 'runner.spawn_layer_in_subprocess'), ('process_c07', 'process.SubProcess.report')],
     'C04': [(L, 'runner.setup_layer'), (L, 'runner.tear_down_unneeded'), (L, 'runner.run_layer'),
             (L, 'runner.handle_layer_failure'), (RR, TR + '_restoreStdStreams'), (RR, TR + 'startTest'),
-            (RR, TR + 'stopTest')] + EVENTS + [PROTOCOL, RUN_TESTS, RUNNER_LOOP],
+            (RR, TR + 'stopTest')] + EVENTS + [PROTOCOL, RUN_TESTS, RUNNER_LOOP]
+           # the run loop's other callees must not raise either: the scheduler of resumed layers, and the chain walk of
+           # the runner's own traceback printer (reached from handle_layer_failure through traceback.print_exc)
+           + [('runner_sched', 'runner.resume_tests'), ('tbformat_c04', 'tb_format._iter_chain')],
     'C05': [(L, 'runner.gather_layers'), (L, 'runner.order_by_bases'), (RR, TR + '__init__'), (RR, TR + 'testSetUp'),
             (RR, TR + 'testTearDown'), (RR, TR + 'startTest'), (RR, TR + 'stopTest'), (RR, TR + 'addSkip'), PROTOCOL],
     'C08': [('filter_c08', 'filter.build_filtering_func'), ('find_c14', 'find.find_suites'),
